@@ -8,6 +8,7 @@ mod oracle_emission;
 mod oracle_fidelity;
 mod oracle_fileset;
 mod oracle_generators;
+mod oracle_targets;
 mod oracle_lexical;
 mod oracle_lints;
 mod oracle_plugin;
@@ -148,10 +149,11 @@ fn main() {
         "emission" => oracle_emission::run(),
         "roundtrip" => oracle_roundtrip::run(),
         "generators" => oracle_generators::run(),
+        "targets" => oracle_targets::run(),
         "cycles-child" => oracle_cycles::child(std::env::args().nth(2).and_then(|s| s.parse().ok()).unwrap_or(0)),
         "one" => oracle_lexical::one(&std::env::args().nth(2).unwrap_or_default()),
         _ => {
-            eprintln!("usage: slicec-bounded plugin|preproc|decode|totals|visitor|fileset|lexical|snippet|lints|spans|request|comments|fidelity|scopes|rules|cycles|emission|roundtrip|generators");
+            eprintln!("usage: slicec-bounded plugin|preproc|decode|totals|visitor|fileset|lexical|snippet|lints|spans|request|comments|fidelity|scopes|rules|cycles|emission|roundtrip|generators|targets");
             2
         }
     };
@@ -166,7 +168,7 @@ fn decode_check() -> i32 {
     use slice_codec::buffer::slice::SliceInputSource;
     use slice_codec::buffer::InputSource;
     use slice_codec::decoder::Decoder;
-    let mut rep = Report::new("decode", "all byte strings of length <= 2, plus length 3..=4 over the alphabet {00,01,04,08,0c,41,e2,82,ff,fe,fc}; 9 types");
+    let mut rep = Report::new("decode", "all byte strings of length <= 2, plus length 3..=4 over the alphabet {00,01,04,08,0c,41,e2,82,ff,fe,fc}; 9 types: no panic, cursor inside, errors render; + strictness: every key sequence of length <= 4 over 3 keys for both dictionary types (Ok iff distinct), every byte as a bool");
     let alpha: [u8; 11] = [0x00, 0x01, 0x04, 0x08, 0x0c, 0x41, 0xe2, 0x82, 0xff, 0xfe, 0xfc];
     let mut inputs: Vec<Vec<u8>> = vec![vec![]];
     for a in 0..=255u8 { inputs.push(vec![a]); }
@@ -217,6 +219,42 @@ fn decode_check() -> i32 {
                 _ => {}
             }
         }
+    }
+    // strictness of dictionaries: every key sequence of length <= 4 over 3 keys (a repeated key in EVERY pair of positions, adjacent or
+    // not, in wire order ascending or not), both dictionary types: Ok iff the keys are distinct, and then the map is the entries
+    for n in 0..=4usize {
+        for code in 0..3usize.pow(n as u32) {
+            let keys: Vec<u8> = (0..n).map(|i| [7u8, 9, 3][(code / 3usize.pow(i as u32)) % 3]).collect();
+            let mut data = vec![(n as u8) << 2];
+            for (i, k) in keys.iter().enumerate() { data.push(*k); data.push(10 + i as u8); }
+            let distinct = (0..n).all(|i| (0..i).all(|j| keys[i] != keys[j]));
+            let want: Option<BTreeMap<u8, u8>> = if distinct { Some(keys.iter().enumerate().map(|(i, k)| (*k, 10 + i as u8)).collect()) } else { None };
+            for which in ["hashmap_u8_u8", "btreemap_u8_u8"] {
+                let d2 = data.clone();
+                let label = format!("{which}:{}", data.iter().map(|b| format!("{b:02x}")).collect::<String>());
+                rep.case(true, || label.clone());
+                let out = std::panic::catch_unwind(move || {
+                    let mut dec = Decoder::new(SliceInputSource::from(&d2[..]));
+                    let r: Option<BTreeMap<u8, u8>> = if which == "hashmap_u8_u8" { dec.decode::<HashMap<u8, u8>>().ok().map(|m| m.into_iter().collect()) } else { dec.decode::<BTreeMap<u8, u8>>().ok() };
+                    (r, dec.remaining())
+                });
+                match out {
+                    Err(_) => rep.counterexample(&label, "Ok or Err", "PANIC while decoding"),
+                    Ok((got, rest)) => {
+                        if got != want { rep.counterexample(&label, &format!("{want:?} (a dictionary with a repeated key is refused, wherever the repetition is)"), &format!("{got:?}")); }
+                        else if got.is_some() && rest != 0 { rep.counterexample(&label, "all bytes consumed", &format!("{rest} left")); }
+                    }
+                }
+            }
+        }
+    }
+    // strictness of bool: only 0 and 1
+    for b in 0..=255u8 {
+        let label = format!("bool strict:{b:02x}");
+        rep.case(true, || label.clone());
+        let got = std::panic::catch_unwind(move || { let d = [b]; let mut dec = Decoder::new(SliceInputSource::from(&d[..])); dec.decode::<bool>().ok() });
+        let want = match b { 0 => Some(false), 1 => Some(true), _ => None };
+        match got { Err(_) => rep.counterexample(&label, "Ok or Err", "PANIC"), Ok(g) => if g != want { rep.counterexample(&label, &format!("{want:?}"), &format!("{g:?}")); } }
     }
     rep.finish()
 }
